@@ -1245,6 +1245,136 @@ def inline_constants(tree, shape):
     return done
 
 
+# ----------------------------------------------------------------------- N15 function factories, N16 operator module
+_OPERATOR_BIN = {"add": ast.Add, "sub": ast.Sub, "mul": ast.Mult, "truediv": ast.Div, "floordiv": ast.FloorDiv, "mod": ast.Mod,
+                 "pow": ast.Pow, "lshift": ast.LShift, "rshift": ast.RShift, "and_": ast.BitAnd, "or_": ast.BitOr, "xor": ast.BitXor,
+                 "matmul": ast.MatMult}
+_OPERATOR_CMP = {"lt": ast.Lt, "le": ast.LtE, "eq": ast.Eq, "ne": ast.NotEq, "gt": ast.Gt, "ge": ast.GtE, "is_": ast.Is,
+                 "is_not": ast.IsNot}
+
+
+class _OperatorCalls(ast.NodeTransformer):
+    """N16. operator.add(a, b) is a + b (and so on for the binary and comparison functions of the operator module)"""
+
+    def __init__(self, names):
+        self.names = names   # local names of the operator module
+        self.count = 0
+
+    def visit_Call(self, node):
+        self.generic_visit(node)
+        f = node.func
+        if isinstance(f, ast.Attribute) and isinstance(f.value, ast.Name) and f.value.id in self.names and len(node.args) == 2 \
+                and not node.keywords and not any(isinstance(a, ast.Starred) for a in node.args):
+            if f.attr in _OPERATOR_BIN:
+                self.count += 1
+                return ast.copy_location(ast.BinOp(left=node.args[0], op=_OPERATOR_BIN[f.attr](), right=node.args[1]), node)
+            if f.attr in _OPERATOR_CMP:
+                self.count += 1
+                return ast.copy_location(ast.Compare(left=node.args[0], ops=[_OPERATOR_CMP[f.attr]()], comparators=[node.args[1]]), node)
+        return node
+
+
+def instantiate_factories(tree, shape):
+    """N15.  A new module-level function that only defines one inner function, optionally sets descriptive attributes on it
+    (__name__, __qualname__, __doc__) and returns it, is a function template: `F(a, b)` with effect-free arguments is
+    replaced by a local `def` of the inner function with the parameters substituted, placed before the statement that uses
+    it (named after the attribute it is installed as, if the use is `setattr(obj, "<name>", F(...))`)."""
+    pinned_fns = set(shape["functions"])
+    factories = {}
+    for st in tree.body:
+        if not (isinstance(st, ast.FunctionDef) and st.name not in pinned_fns and not st.decorator_list):
+            continue
+        body = _strip_doc(st.body)
+        if not body or not isinstance(body[0], ast.FunctionDef) or not isinstance(body[-1], ast.Return) \
+                or not isinstance(body[-1].value, ast.Name) or body[-1].value.id != body[0].name:
+            continue
+        inner = body[0]
+        meta_ok = all(isinstance(x, ast.Assign) and len(x.targets) == 1 and isinstance(x.targets[0], ast.Attribute)
+                      and isinstance(x.targets[0].value, ast.Name) and x.targets[0].value.id == inner.name
+                      and x.targets[0].attr in ("__name__", "__qualname__", "__doc__") for x in body[1:-1])
+        a = st.args
+        if not meta_ok or a.vararg or a.kwarg or a.posonlyargs or a.kwonlyargs or inner.decorator_list:
+            continue
+        params = [x.arg for x in a.args]
+        inner_bound = {x.arg for x in ast.walk(inner.args) if isinstance(x, ast.arg)} | fn_locals(inner)
+        if set(params) & inner_bound:
+            continue
+        factories[st.name] = (st, inner, params)
+    if not factories:
+        return []
+    done = []
+    for q, host in functions_of(tree).items():
+        if host.name in factories:
+            continue
+        taken = fn_locals(host) | {x.arg for x in ast.walk(host.args) if isinstance(x, ast.arg)}
+        for owner, field, lst in _stmt_lists(host):
+            i = 0
+            while i < len(lst):
+                stmt = lst[i]
+                if isinstance(stmt, (ast.FunctionDef, ast.AsyncFunctionDef, ast.ClassDef)):
+                    i += 1
+                    continue
+                calls = [c for c in _walk_stmt(stmt) if isinstance(c, ast.Call) and isinstance(c.func, ast.Name) and c.func.id in factories]
+                calls = [c for c in calls if isinstance(stmt, (ast.Expr, ast.Assign, ast.Return)) and _contains(stmt.value, c)] if calls else []
+                if not calls:
+                    i += 1
+                    continue
+                c = calls[0]
+                fdef, inner, params = factories[c.func.id]
+                if c.keywords and any(k.arg is None for k in c.keywords) or any(isinstance(x, ast.Starred) for x in c.args) \
+                        or len(c.args) > len(params):
+                    i += 1
+                    continue
+                mapping = dict(zip(params, c.args))
+                for k in c.keywords:
+                    mapping[k.arg] = k.value
+                defaults = dict(zip(reversed(params), reversed(fdef.args.defaults)))
+                for p_ in params:
+                    mapping.setdefault(p_, defaults.get(p_))
+                if any(v is None or not (is_pure(v) and isinstance(v, (ast.Constant, ast.Name, ast.Attribute))) for v in mapping.values()):
+                    i += 1
+                    continue
+                name = None
+                if isinstance(stmt, ast.Expr) and isinstance(stmt.value, ast.Call) and _callee(stmt.value) == "setattr" \
+                        and len(stmt.value.args) == 3 and stmt.value.args[2] is c and isinstance(stmt.value.args[1], ast.Constant) \
+                        and isinstance(stmt.value.args[1].value, str) and stmt.value.args[1].value.isidentifier():
+                    name = stmt.value.args[1].value
+                if name is None or name in taken:
+                    name = f"{inner.name}_{len(done)}"
+                    while name in taken:
+                        name += "_"
+                taken.add(name)
+                new = copy.deepcopy(inner)
+                new.name = name
+                substitute(new, mapping)
+                ast.copy_location(new, stmt)
+                ref = ast.copy_location(ast.Name(id=name, ctx=ast.Load()), c)
+                _replace_node(stmt, c, ref)
+                lst.insert(i, new)
+                ast.fix_missing_locations(new)
+                done.append(c.func.id)
+                i += 1   # re-examine the same statement (now at i) for further factory calls
+    if done:
+        for name, (fdef, _i, _p) in factories.items():
+            if name in done and not any(isinstance(n, ast.Name) and n.id == name and isinstance(n.ctx, ast.Load) for n in ast.walk(tree)):
+                tree.body.remove(fdef)
+    return sorted(set(done))
+
+
+def _replace_node(root, old, new):
+    for parent in ast.walk(root):
+        for f_, v in ast.iter_fields(parent):
+            if v is old:
+                setattr(parent, f_, new)
+                return True
+            if isinstance(v, list):
+                for k, x in enumerate(v):
+                    if x is old:
+                        v[k] = new
+                        return True
+    return False
+
+
 # ----------------------------------------------------------------------- N14 loops over a one-element display
 def unroll_singleton_loops(fn):
     """`for x in (a,): body` (a display with one element, plain name target, no break / continue / else) is `x = a; body`"""
@@ -1844,6 +1974,16 @@ def normalise(tree, modname, shape_all=None, keep=frozenset()):
         return log
     shape = shape_all[modname]
     log["constants"] = inline_constants(tree, shape)
+    fac = instantiate_factories(tree, shape)
+    if fac:
+        log["factories"] = fac
+    opnames = {(a.asname or a.name) for st in tree.body if isinstance(st, ast.Import) for a in st.names if a.name == "operator"}
+    if opnames:
+        oc = _OperatorCalls(opnames)
+        oc.visit(tree)
+        if oc.count:
+            log["operator_calls"] = oc.count
+            ast.fix_missing_locations(tree)
     log["inlined"] = sorted(set(inline_helpers(tree, shape, keep)))
     if log["constants"] or log["inlined"]:
         _Recompile().visit(tree)
